@@ -385,6 +385,46 @@ def run(F, rep, tier):
         if ty not in seen_d:
             rep.viol('R12.6', 'destructure|%s|missing' % ty, 'the documented operator pattern for %s has no destructure implementation' % ty, None)
 
+    # ---------------- R12.7
+    rep.rule('R12.7', 'for-clause patterns are evaluated per element: in evaluate_for (Normal and Item iteration) eval_lvalue lies on the loop '
+             'cycle and receives the per-iteration scope (the result of Env::with_parent), so annotation and callee expressions inside the '
+             'pattern are re-evaluated for every element and each element is checked against the current type')
+    ef = 'eval::evaluate_for'
+    if not F.has_fn(ef):
+        rep.error('R12.7', 'evaluate_for missing')
+    else:
+        efb = F.body(ef)
+        fm = None
+        for m in F.matches.get(ef, []):
+            if m['kind'] == 'Normal' and 'ForIterationType' in m['scrut_ty']:
+                fm = m
+        if fm is None:
+            rep.error('R12.7', 'evaluate_for: match on ForIterationType missing')
+        else:
+            seen7 = 0
+            for i, a in enumerate(fm['arms']):
+                ps = pat_paths(a['pat'])
+                v = ps[0].rsplit('::', 1)[-1] if ps else None
+                if v not in ('Normal', 'Item'):
+                    continue
+                regn = arm_region(F, efb, fm, i)
+                els = [c for c in efb.calls_in(regn) if c.target.endswith('eval::eval_lvalue') or c.target == 'eval::eval_lvalue']
+                if not els:
+                    # hoisted out of the arm entirely?
+                    els = [c for c in efb.calls if c.target == 'eval::eval_lvalue' and not efb.on_cycle(c.bb)]
+                    if els:
+                        rep.viol('R12.7', '%s|%s|hoisted' % (ef, v), 'the pattern of a for clause is evaluated once, outside the iteration loop: annotation expressions are not re-evaluated per element', els[0].loc())
+                        seen7 += 1
+                    continue
+                for c in els:
+                    seen7 += 1
+                    og = origins(efb, c.args[0])
+                    fresh = og and all(o[0] == 'call' and o[1].endswith('Env::with_parent') for o in og)
+                    if efb.on_cycle(c.bb) and fresh:
+                        rep.ok('R12.7', 'evaluate_for %s' % v, 'eval_lvalue inside the loop, in the per-iteration scope')
+                    else:
+                        rep.viol('R12.7', '%s|%s|hoisted' % (ef, v), 'the pattern of a for clause is evaluated %s: type annotations and callee expressions inside it are not re-evaluated for every element, later elements are checked against a stale type' % ('outside the iteration loop' if not efb.on_cycle(c.bb) else 'in the enclosing scope instead of the per-iteration scope'), c.loc())
+            rep.floor('R12.7', 'for-clause pattern evaluations', seen7, 2)
     rep.undecided += ['which names a pattern binds to which parts (value semantics of patterns)',
                       'inverse-constructor patterns (n + 1, a / b, h .+ t) as functions of values',
                       'satisfying-predicate types']
